@@ -195,7 +195,7 @@ class Engine:
             join = T.choice([0, 0.4, 1, 1.5, 0.6, 2.75, 3.5, 7]) / sr
         outfmt = T.choice([None, None, "wav", "raw"])
         o_ext = T.choice(["wav", "raw"])
-        O_ext = T.choice(["wav", "raw"])
+        O_ext = T.weighted([(4, "wav"), (4, "raw"), (1, "ogg")])
         cmd = T.draw(10) == 0
         debug_file = T.draw(5) == 0
         wav_trailer = T.draw(3) == 0
@@ -623,7 +623,12 @@ class Engine:
                 if d != bytes(r.data) or (hp and hp != (sr, sw, ch)):
                     return V("C15.3", "-o file %s differs from its detection"
                              % os.path.basename(nme), "C15.3:o_data")
-        if O_path is not None:
+        if O_path is not None and (res.get("T") or sc["O_ext"]) == "ogg":
+            # needs an external encoder, none can be started: the warning
+            # goes to stderr, stdout and the exit status are as usual
+            # (checked above); the file itself is not judged
+            pass
+        elif O_path is not None:
             try:
                 d, hp = _read_audio(O_path, res.get("T") or sc["O_ext"])
             except Exception as e:
